@@ -67,7 +67,7 @@ fn varname_cmp_spec() {
     assert!((got == Ordering::Equal) == (VarName::new(sa) == VarName::new(sb)));
 }
 
-// @C19 kani.cgi.varname_hash_agrees_with_eq bounded(two ASCII names <= 18 bytes that differ only in letter case; crosses the 16-byte chunk)
+// @C19 kani.cgi.varname_hash_agrees_with_eq bounded(two ASCII names <= 18 bytes that differ only in letter case; crosses the 16-byte chunk) thorough
 #[kani::proof]
 #[kani::unwind(20)]
 fn varname_hash_case_insensitive() {
@@ -91,6 +91,30 @@ fn varname_hash_case_insensitive() {
     // the hashed bytes are the uppercased name, chunked, with a 0xff terminator in the last write
     assert!(ha.n == n + 1);
     kani::cover!(n == 17 && flip == 16);
+}
+
+// @C19 kani.cgi.varname_hash_full_chunk bounded(two 17-byte ASCII names, i.e. one full 16-byte hashing chunk plus one byte, that differ in the case of one letter)
+#[kani::proof]
+#[kani::unwind(20)]
+fn varname_hash_full_chunk() {
+    let a: [u8; 17] = kani::any();
+    let mut b = a;
+    let flip: usize = kani::any();
+    kani::assume(flip < 17);
+    if b[flip] >= b'a' && b[flip] <= b'z' { b[flip] -= 32; } else if b[flip] >= b'A' && b[flip] <= b'Z' { b[flip] += 32; }
+    let (sa, sb) = (ascii(&a, 17), ascii(&b, 17));
+    let mut ha = Rec { buf: [0; 64], n: 0, writes: 0 };
+    let mut hb = Rec { buf: [0; 64], n: 0, writes: 0 };
+    VarName::new(sa).hash(&mut ha);
+    VarName::new(sb).hash(&mut hb);
+    assert!(ha.n == 18 && hb.n == 18 && ha.writes == hb.writes);
+    let mut i = 0;
+    while i < 18 { assert!(ha.buf[i] == hb.buf[i]); i += 1; }
+    // the hashed bytes are the uppercased name followed by the 0xff terminator
+    let k: usize = kani::any();
+    kani::assume(k < 17);
+    assert!(ha.buf[k] == up(a[k]) && ha.buf[17] == 0xff);
+    kani::cover!(flip == 3 && a[3] == b'q');
 }
 
 // @C19 kani.cgi.static_names_roundtrip bounded(four interned names: canonical spelling, equality and order against their string form) thorough
